@@ -29,18 +29,27 @@ BASES = 'ACGT'
 # the code under test, loaded once per process exactly like demux.py does (lines 260-304)
 
 class Loader:
-    def __init__(self, hd=0):
+    def __init__(self, hd=0, si=None):
         import singlecellmultiomics.barcodeFileParser.barcodeFileParser as bfp
         from singlecellmultiomics.modularDemultiplexer.demultiplexingStrategyLoader import DemultiplexingStrategyLoader
         bdir = str(resources.files('singlecellmultiomics') / 'modularDemultiplexer/barcodes/')
         idir = str(resources.files('singlecellmultiomics') / 'modularDemultiplexer/indices/')
         with contextlib.redirect_stdout(io.StringIO()):
             self.bp = bfp.BarcodeParser(hammingDistanceExpansion=hd, barcodeDirectory=bdir, lazyLoad=("10x_3M-february-2018",))
-            self.ip = bfp.BarcodeParser(hammingDistanceExpansion=1, barcodeDirectory=idir)
+            alias = 'illumina_merged_ThruPlex48S_RP'
+            if si:          # demux.py -si A,B (lines 270-287): only these sequencing indices, alias 'user'
+                self.ip = bfp.BarcodeParser()
+                alias = 'user'
+                for index, seq in enumerate(si.split(',')):
+                    self.ip.addBarcode(index=str(index), barcodeFileAlias='user', barcode=seq, hammingDistance=0, originBarcode=None)
+                self.ip.expand(1, alias='user')
+            else:
+                self.ip = bfp.BarcodeParser(hammingDistanceExpansion=1, barcodeDirectory=idir)
             self.dmx = DemultiplexingStrategyLoader(barcodeParser=self.bp, indexParser=self.ip, only_detect_methods=None,
-                                                    indexFileAlias='illumina_merged_ThruPlex48S_RP')
+                                                    indexFileAlias=alias)
         self.names = [s.shortName for s in self.dmx.demultiplexingStrategies]
         self.hd = hd
+        self.si = si or ''
 
     def select(self, names):
         with contextlib.redirect_stdout(io.StringIO()):
@@ -262,8 +271,12 @@ def write_inputs(d, lib, pairs, mates, gz=True, cfg=None):
     return files
 
 
+RE_LY = re.compile(r'LY:[^;]*')
+
+
 def id_of(hdr):
-    ids = set(int(x) for x in RE_TOKEN.findall(hdr))
+    # the library name (LY tag, also quoted inside error texts of raw rejects) is not part of the read name
+    ids = set(int(x) for x in RE_TOKEN.findall(RE_LY.sub('LY:', hdr)))
     return ids.pop() if len(ids) == 1 else 0
 
 
@@ -407,6 +420,9 @@ def api_pass(loader, strategies, pairs, cfg, maxpairs, d, target_dir, tag):
     log_location = os.path.abspath(f'{target_dir}/demultiplexing.log')
     log_handle = open(log_location, 'w')
     log_handle.write('driver\n')
+    real_log = log_handle
+    if cfg.get('nolog'):
+        log_handle = None               # API use without a log handle
     raised, total, ylds = '', 0, collections.Counter()
     old_limit = None
     if cfg['percell'] and cfg.get('nofile'):
@@ -438,7 +454,7 @@ def api_pass(loader, strategies, pairs, cfg, maxpairs, d, target_dir, tag):
                 h.close()
             except Exception as ex:
                 raised = raised or 'close:' + type(ex).__name__
-    log_handle.close()
+    real_log.close()
     return raised, total, ylds
 
 
@@ -463,10 +479,12 @@ def run_api(loader, strategies, pairs, cfg, workdir):
 
 
 def observe(target_dir, cfg, names):
-    logged, lp, ly = parse_log(os.path.join(target_dir, 'demultiplexing.log'), names)
+    g = (cfg.get('cli') or {}).get('g')
+    pre = '' if g is None else '%d_TEMP_' % g          # demux.py -g <group id>: chunk prefix of all output files
+    logged, lp, ly = parse_log(os.path.join(target_dir, pre + 'demultiplexing.log'), names)
     return {'logged': logged, 'logProcessed': lp, 'logYields': ly,
-            'tgt': read_sinks(target_dir, os.path.join(target_dir, 'demultiplexed'), cfg['mates'], False, cfg['percell']),
-            'rej': read_sinks(target_dir, os.path.join(target_dir, 'rejects'), cfg['mates'], True) if cfg['hasRej'] else []}
+            'tgt': read_sinks(target_dir, os.path.join(target_dir, pre + 'demultiplexed'), cfg['mates'], False, cfg['percell']),
+            'rej': read_sinks(target_dir, os.path.join(target_dir, pre + 'rejects'), cfg['mates'], True) if cfg['hasRej'] else []}
 
 
 def write_inputs_illumina(d, lib, lanes, mates, cfg=None):
@@ -494,7 +512,27 @@ def cli_pass(names, pairs, cfg, maxpairs, d, out, tag):
         files = files + write_inputs(ind, lib + '1', other, cfg['mates'], gz=True, cfg=cfg)
     if cfg.get('cli_reverse'):
         files = files[::-1]                 # demux.py sorts its arguments itself
+    opt = cfg.get('cli') or {}
+    if opt.get('dup_args'):
+        files = files + [files[0]]          # the same file given twice: demux.py prunes duplicates
+    if opt.get('filelist'):
+        lst = os.path.join(ind, 'files.txt')            # one argument that is not a fastq file: a list of files
+        with open(lst, 'w') as f:
+            f.write('\n'.join(files) + '\n')
+        files = [lst]
     argv = ['demux.py'] + files + (['-use', ','.join(names)] if not (cfg.get('cli_auto') and tag == 'main') else []) + ['--y', '-o', out]
+    if opt.get('g') is not None:
+        argv += ['-g', str(opt['g'])]
+    if opt.get('mxa'):
+        argv += ['-mxa', str(opt['mxa'])]
+    if opt.get('only'):
+        argv += ['-only_detect_methods', opt['only']]
+    if opt.get('hd'):
+        argv += ['-hd', str(opt['hd'])]
+    if opt.get('si'):
+        argv += ['-si', opt['si']]
+    if cfg['percell'] and 'fh' in cfg:
+        argv += ['-fh', str(cfg['fh'])]
     if cfg['mates'] == 1:
         argv.append('--se')
     if not cfg['hasRej']:
@@ -521,15 +559,22 @@ def cli_pass(names, pairs, cfg, maxpairs, d, out, tag):
     return raised
 
 
-def autodetect(loader, pairs, cfg, workdir):
+def autodetect(loader, pairs, cfg, workdir, mxa=1):
     """which strategies demux.py selects without -use (its lines 316-339, through the loader of this process)"""
     d = tempfile.mkdtemp(prefix='auto_', dir=workdir)
-    files = write_inputs(d, cfg['lib'], pairs, cfg['mates'], gz=True, cfg=cfg)
-    libs = {cfg['lib']: {'single_file': dict(('R%d' % (k + 1), [f]) for k, f in enumerate(files))}}
+    lanes = split_lanes(pairs, cfg)
+    if len(lanes) == 1:
+        files = write_inputs(d, cfg['lib'], pairs, cfg['mates'], gz=True, cfg=cfg)
+        libs = {cfg['lib']: {'single_file': dict(('R%d' % (k + 1), [f]) for k, f in enumerate(files))}}
+    else:       # the lane structure demux.py sees (it probes the first lane only)
+        files = write_inputs_illumina(d, cfg['lib'], lanes, cfg['mates'], cfg)
+        m = cfg['mates']
+        libs = {cfg['lib']: dict(('%s_L%03d' % (cfg['lib'], li + 1), dict(('R%d' % (k + 1), [files[li * m + k]]) for k in range(m)))
+                                 for li in range(len(lanes)))}
     with contextlib.redirect_stdout(io.StringIO()):
-        processed, ylds = loader.dmx.detectLibYields(libs, testReads=2000, maxAutoDetectMethods=1, minAutoDetectPct=2, verbose=False)
+        processed, ylds = loader.dmx.detectLibYields(libs, testReads=2000, maxAutoDetectMethods=mxa, minAutoDetectPct=2, verbose=False)
         sel = loader.dmx.selectedStrategiesBasedOnYield(ylds[cfg['lib']]['processedReadPairs'], ylds[cfg['lib']]['strategyYields'],
-                                                        maxAutoDetectMethods=1, minAutoDetectPct=2)
+                                                        maxAutoDetectMethods=mxa, minAutoDetectPct=2)
     shutil.rmtree(d, True)
     return list(sel)
 
@@ -560,6 +605,7 @@ def run_event(tid, grp, entry, names, pairs, acc, cfg, obs, extra=None):
          'prior': cfg.get('prior') or '', 'prior_k': int(cfg.get('prior_k') or 0), 'lanes': int(cfg.get('lanes', 1)),
          'lane_split': int(cfg.get('lane_split', 0)), 'lane_splits': [int(x) for x in cfg.get('lane_splits') or []], 'stale_dir': bool(cfg.get('stale_dir')),
          'eol': cfg.get('eol') or 'lf', 'nofinalnl': bool(cfg.get('nofinalnl')), 'trailing_blank': bool(cfg.get('trailing_blank')), 'nofile': int(cfg.get('nofile') or 0),
+         'cli_cfg': json.dumps(cfg.get('cli') or {}, sort_keys=True), 'nolog': bool(cfg.get('nolog')),
          'cli_auto': bool(cfg.get('cli_auto')), 'cli_reverse': bool(cfg.get('cli_reverse')), 'cli_extra_lib': bool(cfg.get('cli_extra_lib')),
          'strategies': names, 'lib': cfg['lib'], 'N': len(pairs),
          'classes': [[p['hdr'], p['content']] for p in pairs],
@@ -591,7 +637,7 @@ class Recorder:
         for cfg in cfgs:
             self.tid += 1
             obs = run_api(loader, strategies, pairs, cfg, workdir) if entry == 'api' else run_cli(snames, pairs, cfg, workdir)
-            self.emit(run_event(self.tid, self.grp, entry, snames, pairs, acc, cfg, obs, dict(extra or {}, hd=loader.hd)))
+            self.emit(run_event(self.tid, self.grp, entry, snames, pairs, acc, cfg, obs, dict(extra or {}, hd=loader.hd, si=loader.si)))
             n = len(pairs) if not cfg['maxpairs'] else min(len(pairs), cfg['maxpairs'])
             runs.append({'n': n, 'cfg': [cfg['hasRej'], cfg['percell'], cfg['maxpairs']],
                          'ids': [r['id'] for sk in obs['tgt'] for r in sk['mates'][0]['recs']]})
@@ -602,7 +648,7 @@ class Recorder:
 
 def configs(rng, lib, mates, n, full):
     base = {'lib': lib, 'mates': mates, 'gz': rng.random() < 0.7, 'eol': rng.choice(['lf', 'lf', 'crlf']),
-            'nofinalnl': rng.random() < 0.4, 'trailing_blank': rng.random() < 0.2}
+            'nofinalnl': rng.random() < 0.4, 'trailing_blank': rng.random() < 0.2, 'nolog': rng.random() < 0.15}
     out = [dict(base, hasRej=True, percell=False, maxpairs=0),
            dict(base, hasRej=False, percell=False, maxpairs=0)]
     out.append(dict(base, hasRej=rng.random() < 0.7, percell=True, maxpairs=0, fh=rng.choice([0, 1, 2, 500]),
@@ -765,7 +811,8 @@ def main():
             n = rng.randint(8, 24)
             pairs = make_library(rng, loader, strategies, n, mates, focus=0, hdr_classes=['ill11', 'ill11num', 'dec3', 'scmo', 'ill11'],
                                  content_classes=['exact', 'exact', 'exact', 'unknown', 'mm1', 'n_umi'])
-            lib = 'LIB' + ''.join(rng.choice('abcdefghijklmnopqrstuvwxyz0123456789') for _ in range(rng.randint(50, 105)))
+            # letters only: a run of digits in the library name could look like the id token of a pair to this driver
+            lib = 'LIB' + ''.join(rng.choice('abcdefghijklmnopqrstuvwxyzABCDEFGHIJKLMNOPQRSTUVWXYZ') for _ in range(rng.randint(50, 105)))
             base = {'lib': lib, 'mates': mates, 'gz': True}
             rec.group(loader, [name], pairs, [dict(base, hasRej=True, percell=False, maxpairs=0),
                                               dict(base, hasRej=False, percell=False, maxpairs=rng.choice([0, rng.randint(1, n)])),
@@ -864,6 +911,53 @@ def main():
             rec.group(loader, [name], pairs, [cfg], workdir, entry='cli', extra={'shape': label})
             if not quick:
                 rec.group(loader, [name], pairs, [dict(cfg)], workdir, entry='api', extra={'shape': label})
+
+        # (6c) option and argument variants of the command line that change which code handles the same data
+        loader_si = Loader(hd=0, si='GTGAAA,TTAGGC')
+        variants = ['se_auto', 'none_selected', 'dup_args', 'filelist', 'g0', 'g3_prior', 'mxa2', 'only', 'hd1', 'si']
+        for j, var in enumerate(variants if quick else variants * 3):
+            ld = {'hd1': loader1, 'si': loader_si}.get(var, loader)
+            name = rng.choice(['CS2C8U6', 'NLAIII384C8U3', 'MSPJIC8U3', 'DamID2'])
+            mates = 1 if var == 'se_auto' or (j >= len(variants) and j % 4 == 3) else 2
+            names = [name] if var != 'mxa2' else ['CS2C8U6', 'NLAIII384C8U3']
+            strategies = ld.select(names)
+            n = rng.randint(10, 30)
+            classes = {'none_selected': ['emptyboth', 'shortprefix'], 'hd1': ['exact', 'mm1', 'mm1', 'unknown']}.get(
+                var, ['exact', 'exact', 'exact', 'unknown', 'mm1', 'n_umi'])
+            pairs = make_library(rng, ld, strategies, n, mates, focus=None if var == 'mxa2' else 0, content_classes=classes,
+                                 hdr_classes=['ill11', 'ill11', 'ill11num', 'ill11unk', 'dec3', 'scmo', 'ill10'] if var == 'si' else None)
+            if var == 'none_selected' and (j // len(variants)) % 2 == 0:
+                # one demultiplexable pair among 59 others: the best strategy yields 1.7 % < -minAutoDetectPct 2 -> nothing selected
+                pairs = make_library(rng, ld, strategies, 59, mates, focus=0, content_classes=['emptyboth', 'shortprefix'])
+                for _ in range(20):     # until the one pair really is demultiplexable (the generator may lower-case it)
+                    one = relabel(make_library(rng, ld, strategies, 1, mates, focus=0, content_classes=['exact'], hdr_classes=['ill11']), 59)
+                    if oracle(strategies, one, 'OPTS') == [['A']]:
+                        break
+                pairs = pairs + one
+                n = 60
+            cfg = {'lib': 'OPTS', 'mates': mates, 'hasRej': j % 3 != 2, 'percell': j % 2 == 1, 'fh': rng.choice([0, 1, 500]),
+                   'maxpairs': 0 if j % 4 else rng.randint(1, n), 'cli': {}}
+            use = [s.shortName for s in strategies]
+            if var in ('se_auto', 'none_selected', 'mxa2'):
+                mxa = 2 if var == 'mxa2' else 1
+                if mxa == 2:
+                    cfg['cli']['mxa'] = 2
+                use = autodetect(ld, pairs, cfg, workdir, mxa=mxa)
+                cfg['cli_auto'] = True
+            elif var in ('dup_args', 'filelist'):
+                cfg['cli'][var] = True
+            elif var == 'g0':
+                cfg['cli']['g'] = 0
+            elif var == 'g3_prior':
+                cfg['cli']['g'] = 3
+                cfg.update(prior='testrun', prior_k=rng.randint(1, n), maxpairs=0)
+            elif var == 'only':
+                cfg['cli']['only'] = name + ',ILLU'
+            elif var == 'hd1':
+                cfg['cli']['hd'] = 1
+            elif var == 'si':
+                cfg['cli']['si'] = 'GTGAAA,TTAGGC'
+            rec.group(ld, use, pairs, [cfg], workdir, entry='cli', extra={'shape': var})
     finally:
         rec.f.close()
         shutil.rmtree(workdir, True)
@@ -876,7 +970,7 @@ def replay(rec, case_path, workdir):
     loaders = {}
     ev = evs[0]
     hd = ev.get('hd', 0)
-    loader = loaders.setdefault(hd, Loader(hd=hd))
+    loader = loaders.setdefault(hd, Loader(hd=hd, si=ev.get('si') or None))
     pairs = [{'id': p['id'], 'hdr': c[0], 'content': c[1],
               'm': [{'h': h, 'seq': m['seq'], 'plus': pl, 'qual': m['qual']}
                     for h, pl, m in zip(p['h'], p.get('p') or ['+'] * len(p['h']), p['m'])]}
@@ -885,7 +979,8 @@ def replay(rec, case_path, workdir):
              'prior': e.get('prior') or None, 'prior_k': e.get('prior_k', 0), 'lanes': e.get('lanes', 1),
              'lane_split': e.get('lane_split', 0), 'lane_splits': e.get('lane_splits') or [], 'stale_dir': e.get('stale_dir', False), 'eol': e.get('eol', 'lf'),
              'nofinalnl': e.get('nofinalnl', False), 'trailing_blank': e.get('trailing_blank', False), 'cli_auto': e.get('cli_auto', False),
-             'cli_reverse': e.get('cli_reverse', False), 'cli_extra_lib': e.get('cli_extra_lib', False), 'nofile': e.get('nofile', 0), 'hasRej': e['hasRej'],
+             'cli_reverse': e.get('cli_reverse', False), 'cli_extra_lib': e.get('cli_extra_lib', False), 'nofile': e.get('nofile', 0),
+             'cli': json.loads(e.get('cli_cfg') or '{}'), 'nolog': e.get('nolog', False), 'hasRej': e['hasRej'],
              'percell': e['percell'], 'maxpairs': e['maxpairs']} for e in evs]
     rec.group(loader, ev['strategies'], pairs, cfgs, workdir, entry=ev.get('entry', 'api'),
               extra={'scn': ev['scn']} if 'scn' in ev else None)
